@@ -25,6 +25,13 @@ OPTION_POOLS = {
 
 def draw_knobs(rng: Rng, profile: dict):
     kr = rng.fork("knobs")
+    if os.environ.get("VERIF_DEPTH") == "thorough":
+        # deeper exploration: half of the runs use longer histories and larger workflows
+        profile = dict(profile)
+        base_len = profile.get("lengths", [6, 10, 14, 20, 30])
+        base_sz = profile.get("sizes", [1, 2, 3, 3, 4, 4, 5, 6, 8])
+        profile["lengths"] = list(base_len) + [2 * x for x in base_len if x]
+        profile["sizes"] = list(base_sz) + [s + 4 for s in base_sz if s >= 3]
     backend = kr.pick(profile.get("backends", ["slurm", "slurm", "sge", "lsf"]))
     g = kr.pick(profile.get("granularities", [1.0 / 1024, 1.0 / 16, 1.0, 2.0]))
     kn = dict(
